@@ -131,6 +131,7 @@ func registerChildOpsExt() {
 type overlapResp struct {
 	Older      string   `json:"older"`
 	Newer      string   `json:"newer"`
+	Active     string   `json:"active"`
 	OlderFiles []string `json:"older_files"`
 	NewerFiles []string `json:"newer_files"`
 	Blocked    bool     `json:"second_pass_blocked"`
@@ -146,7 +147,7 @@ func init() {
 		if len(frs) < 3 {
 			return storectl.Resp{}, fmt.Errorf("need three fractions, have %d", len(frs))
 		}
-		out := overlapResp{Older: filepath.Base(frs[0].Info().Path), Newer: filepath.Base(frs[1].Info().Path)}
+		out := overlapResp{Older: filepath.Base(frs[0].Info().Path), Newer: filepath.Base(frs[1].Info().Path), Active: filepath.Base(frs[2].Info().Path)}
 		dp, rel := frs[0].DataProvider(context.Background())
 		if _, empty := dp.(frac.EmptyDataProvider); empty {
 			rel()
@@ -172,8 +173,8 @@ func init() {
 		}()
 		select {
 		case <-done:
-		case <-time.After(5 * time.Second):
-			out.Blocked = true
+		case <-time.After(1500 * time.Millisecond):
+			out.Blocked = true // the second pass waits for the first one (fix bd65f76)
 		}
 		out.OlderFiles, out.NewerFiles = fracFiles(c.Dir, out.Older), fracFiles(c.Dir, out.Newer)
 		b, _ := json.Marshal(out)
@@ -181,12 +182,14 @@ func init() {
 	})
 }
 
-// overlapCandidate replays C15_parallel_retention_overlapping_passes_refuted on the real code and COUNTS the outcome
-// (reported as a candidate finding, not as a violation: see the report / manifest level_note).
-func (d *driver) overlapCandidate(sorted bool) {
+// overlapRegress: permanent regression class retention-overlap-older-served-newer-gone (fix bd65f76): the real
+// scenario above, the process killed while the first pass still waits for the reader, a real restart; the
+// fractions listed then must be what the model predicts and the gone ones a prefix of the creation order.
+func (d *driver) overlapRegress(sorted bool) {
 	dir := d.newDir()
 	os.MkdirAll(dir, 0o755)
 	defer os.RemoveAll(dir)
+	desc := map[string]any{"sort_docs": sorted, "scenario": "bulk+seal, bulk+seal, bulk; reader holds the oldest fraction; pass 1 (limit = size of the 2 younger) ; pass 2 (limit = size of the active one); kill; restart"}
 	ch, err := storectl.Start("")
 	if err != nil {
 		d.w.Count("harness_errors")
@@ -199,10 +202,11 @@ func (d *driver) overlapCandidate(sorted bool) {
 			ch.Close()
 		}
 	}()
+	fail := func(what string, e error) { d.w.Violate("overlap-regress:run-failed", what+": "+e.Error(), desc) }
 	if _, e := ch.Call(openReq(dir, sorted)); e != nil {
+		fail("open", e)
 		return
 	}
-	var all []doc
 	for i := 0; i < 3; i++ {
 		docs := d.genDocs(2)
 		req := storectl.Req{Op: "bulk"}
@@ -210,18 +214,19 @@ func (d *driver) overlapCandidate(sorted bool) {
 			req.Docs = append(req.Docs, storectl.Doc{MID: x.MID, RID: x.RID, BodyHex: fmt.Sprintf("%x", x.Body), Tokens: []string{fmt.Sprintf("k:v%d", x.RID%3)}})
 		}
 		if _, e := ch.Call(req); e != nil {
+			fail("bulk", e)
 			return
 		}
-		all = append(all, docs...)
 		if i < 2 {
 			if _, e := ch.Call(storectl.Req{Op: "seal"}); e != nil {
+				fail("seal", e)
 				return
 			}
 		}
 	}
 	r, e := ch.Call(storectl.Req{Op: "c15.overlap"})
 	if e != nil {
-		d.w.Count("overlap_candidate_run_failed")
+		fail("two passes with a reader on the oldest fraction", e)
 		return
 	}
 	var out overlapResp
@@ -229,10 +234,10 @@ func (d *driver) overlapCandidate(sorted bool) {
 	ch.Kill() // crash while the first pass is still waiting for the reader
 	killed = true
 	ch.Close()
-	d.w.Count("overlap_candidate_runs")
 	if out.Blocked {
-		d.w.Count("overlap_candidate_second_pass_waited")
-		return
+		d.w.Count("overlap_second_pass_waited_for_first")
+	} else {
+		d.w.Count("overlap_second_pass_ran_at_once")
 	}
 	ch2, err := storectl.Start("")
 	if err != nil {
@@ -242,25 +247,23 @@ func (d *driver) overlapCandidate(sorted bool) {
 	defer ch2.Close()
 	ch2.Timeout = 60 * 1e9
 	if _, e := ch2.Call(openReq(dir, sorted)); e != nil {
-		d.w.Count("overlap_candidate_restart_failed")
+		d.w.Violate("overlap-regress:restart-died", "restart after the crash failed: "+e.Error(), desc)
 		return
 	}
 	r2, e := ch2.Call(storectl.Req{Op: "c15.info"})
 	if e != nil {
+		fail("info", e)
 		return
 	}
 	listed := map[string]bool{}
 	for _, f := range extraInfos(r2) {
 		listed[f.Name] = true
 	}
-	if listed[out.Older] && !listed[out.Newer] {
-		d.w.Count("overlap_candidate_older_served_newer_gone")
-		d.w.Extra["candidate_overlapping_passes_sort_"+fmt.Sprint(sorted)] = map[string]any{"older": out.Older, "newer": out.Newer,
-			"older_files_at_crash": out.OlderFiles, "newer_files_at_crash": out.NewerFiles,
-			"after_restart": "older fraction listed and served, newer fraction gone"}
-	} else {
-		d.w.Count("overlap_candidate_not_reproduced")
-	}
+	served := []bool{listed[out.Older], listed[out.Newer], listed[out.Active]}
+	term := fmt.Sprintf("COverlap %v [%v; %v; %v]", sorted, served[0], served[1], served[2])
+	d.w.Add(term, "retention-overlap-older-served-newer-gone", true, desc,
+		map[string]any{"fractions": []string{out.Older, out.Newer, out.Active}, "files_of_oldest_at_crash": out.OlderFiles,
+			"files_of_second_at_crash": out.NewerFiles, "second_pass_waited_for_first": out.Blocked, "listed_after_restart": served})
 }
 
 var useSchedules = [][]string{
